@@ -16,8 +16,8 @@ def run(ctx):
     r = ctx.tlc("MC_Values", "MC_Values.cfg").require_clean()
     res.add_tlc(r)
     cells = ctx.tlc("MC_Values", "Gen_Values.cfg").json_lines("GEN")
-    if len(cells) != 243:
-        raise vlib.Inconclusive("expected 243 table cells, generator gave %d" % len(cells))
+    if len(cells) != 270:
+        raise vlib.Inconclusive("expected 270 table cells, generator gave %d" % len(cells))
     evs, _, _ = run_harness(ctx, "object", "TestVerifAccessors", {"cells": cells, "draws": 12 if q else 150})
     # objects read side by side (pub builds the parts of a post in goroutines of their own); a fault there ends the process
     sevs, rc, txt = run_harness(ctx, "object", "TestVerifAccessorsSideBySide", {}, allow_fail=True, name="sidebyside")
